@@ -251,7 +251,7 @@ theorem concrete_yld {K : PE} (hcon : K.isConcrete = true) : K.yld.hasMux = fals
   simp only [PE.isConcrete, Bool.and_eq_true, Bool.not_eq_true'] at hcon
   exact hcon.2
 
-theorem localChoice_ok {A K : PE} (hwf : A.wf = true) (hcov : covers A K = true) (hcon : K.isConcrete = true)
+theorem localChoice_ok {A K : PE} (hwf : uniqueIds A.nodes = true) (hcov : covers A K = true) (hcon : K.isConcrete = true)
     (s : Nat) (u : SwUse) (hu : ∀ j, u = .choose j → ∃ n : Node, A.nodes[j]? = some n) :
     ∃ q, localChoice A K s u = .ok q := by
   cases u with
@@ -271,13 +271,13 @@ theorem localChoice_ok {A K : PE} (hwf : A.wf = true) (hcov : covers A K = true)
         simp only [hk, ht, List.head?_cons]
         have hcn : coversNode A k = true := by
           simp only [covers, List.all_eq_true] at hcov; exact hcov k hkm
-        have hlk : A.lookup k.id = some j := by rw [hid]; exact lookup_of_get (wf_unique hwf) ha
+        have hlk : A.lookup k.id = some j := by rw [hid]; exact lookup_of_get hwf ha
         simp only [coversNode, hlk, ha, ht, List.all_cons, List.all_nil, Bool.and_true,
           List.contains_eq_mem, decide_eq_true_eq] at hcn
         obtain ⟨i, hi⟩ := idxOf_isSome_of_mem t a.ops 0 hcn
         exact ⟨.val i, by simp [hi]⟩
 
-theorem localChoices_ok {A K : PE} (hwf : A.wf = true) (hcov : covers A K = true) (hcon : K.isConcrete = true) :
+theorem localChoices_ok {A K : PE} (hwf : uniqueIds A.nodes = true) (hcov : covers A K = true) (hcon : K.isConcrete = true) :
     ∀ (us : List SwUse) (p : Nat), (∀ u, u ∈ us → ∀ j, u = .choose j → ∃ n : Node, A.nodes[j]? = some n) →
       ∃ pre, localChoices A K us p = .ok pre
   | [], _, _ => ⟨[], rfl⟩
@@ -291,7 +291,7 @@ decodes — the local pass finds every operation, `routeMap` is a valid mapping,
 theorem decodable_of_routable {A K : PE} (hwf : A.wf = true) (hswt : SwT A) (hinv : SlotInv A)
     (hcon : K.isConcrete = true) (huK : uniqueIds K.nodes = true) (hargs : K.argTys.length = A.argTys.length)
     (hcov : covers A K = true) (hr : Routable A K) : ∃ sw, decode A K = .ok sw := by
-  obtain ⟨pre, hpre⟩ := localChoices_ok hwf hcov hcon A.switches 0 (by
+  obtain ⟨pre, hpre⟩ := localChoices_ok (wf_unique hwf) hcov hcon A.switches 0 (by
     intro u hu j hj
     obtain ⟨s, hs, hsu⟩ := List.getElem_of_mem hu
     exact hswt s j (by rw [List.getElem?_eq_getElem hs, hsu, hj]))
